@@ -102,13 +102,15 @@ _REREAD = None
 
 
 def _reread_path():
+    """One path per PROCESS, re-used for every write in that process (a forked worker must not inherit its parent's:
+    two processes writing the same file would read each other's documents)."""
     global _REREAD
-    if _REREAD is None or not os.path.isdir(os.path.dirname(_REREAD)):
+    if _REREAD is None or _REREAD[0] != os.getpid() or not os.path.isdir(os.path.dirname(_REREAD[1])):
         import atexit, shutil, tempfile
         d = tempfile.mkdtemp(prefix='mrm-reread-')
         atexit.register(shutil.rmtree, d, True)
-        _REREAD = os.path.join(d, 'running-order.mos.xml')
-    return _REREAD
+        _REREAD = (os.getpid(), os.path.join(d, 'running-order.mos.xml'))
+    return _REREAD[1]
 
 
 def inspect_quietly(mo):
